@@ -123,6 +123,7 @@ struct SchedStats {
   uint64_t yields[Y_NKINDS] = {};
   uint64_t guard_inits = 0, guard_contended = 0, guard_aborts = 0;
   uint64_t fired_alloc = 0, fired_scalar = 0, fired_cb = 0;
+  uint64_t static_init_faults = 0;  // StaticInitThrow faults that fired
   uint64_t blocked_events = 0;
   uint64_t switch_hash = 0;  // hash chain over the switch sequence
   bool deadlock = false, budget_exceeded = false;
